@@ -781,6 +781,7 @@ class CHECK(vlib.Check):
                 "Bcompare.  Not modelled: NULL children of a MultiQueryFilter, empty (zero-length) ByteBuffers as RawData value/default, Strings "
                 "with embedded NUL, RawData filters aimed at sub-Message/pointer fields (pointer bits), custom ISubexpressionFactory/QueryFilterFactory.")
     premises = ["memory safety of the C++ (observed under ASan/UBSan in the harness only); recursion depth of nested archives (F5)",
+                "axioms: Print Assumptions reports every C14 theorem 'Closed under the global context'; coqchk -o additionally lists four standard-library axioms declared by libraries that Flocq (imported by Flt/FltIeee.v for the IEEE-754 link) loads and that no theorem here uses: Coq.Logic.FunctionalExtensionality.functional_extensionality_dep, Coq.Reals.ClassicalDedekindReals.sig_not_dec, Coq.Reals.ClassicalDedekindReals.sig_forall_dec, Coq.Logic.Classical_Prop.classic",
                 "StringMatcher-backed string operators (wildcard / regex match) are a Section variable [smatch] of the evaluator: every theorem holds for any such function; the correspondence run instantiates it with property C15's StringMatcher model over its ERE engine",
                 "libc atof (strtod) and the double->float conversion are Section variables of the expression-parser model (instantiated with OCaml's in the driver)",
                 "domain: Strings NUL-free; a held ByteBuffer is non-empty; MultiQueryFilter children non-NULL; operand members within their C++ types (wf_filter)",
